@@ -63,7 +63,6 @@ Record err := mkErr { e_kind : ekind; e_span : span }.
 
 (* panic sites of typechecker.rs that lie on the modelled path *)
 Inductive site :=
-| PInnerDecl          (* typechecker.rs:547  unreachable!("Illegal inner statement ...") *)
 | POuterStmt          (* typechecker.rs:660  unreachable!("Illegal outer statement ...") *)
 | PIndexNotInt        (* typechecker.rs:794  unreachable!("Should be handled in parser") *)
 | PBinOpNop           (* typechecker.rs:803  unreachable!() *)
